@@ -97,6 +97,8 @@ func c09Datasets(tier string) []c09Dataset {
 		w("SET k1 d FIELD nan NaN FIELD pinf +Inf FIELD ninf -Inf POINT 1 2"),
 		{"SET", "k1", "e", "FIELD", "esc", "quo\"te\\ \n", "FIELD", "sp", "with space", "FIELD", "numstr", "007", "POINT", "1", "2"},
 		w("SET k1 f FIELD zero 0 FIELD one 1 STRING withfields"),
+		// string-kind fields whose text looks like another kind (given as quoted JSON strings)
+		{"SET", "k1", "g", "FIELD", "qnum", `"123"`, "FIELD", "qtrue", `"true"`, "FIELD", "qobj", `"{\"a\":1}"`, "FIELD", "qpad", `" padded "`, "FIELD", "qnull", `"null"`, "FIELD", "qempty", `""`, "POINT", "1", "2"},
 		w("FSET k1 a later 42"),
 	}})
 	ds = append(ds, c09Dataset{"deadlines", [][]string{
@@ -325,8 +327,15 @@ func c09Run(job *Job, p c09Params, prefix []int) (out schedOut) {
 		if i := strings.Index(want, "@"); i >= 0 {
 			want = want[:i] // hooks / channels are compared through the restart dump
 		}
+		reported := asMap(c.Do("SERVER"))["aof_size"]
 		c.Close()
 		in.Stop()
+		// the size the server reports for its log is the size of the file: a rewrite
+		// that lets buffered commands reach the new file a second time breaks this
+		if fi, err := os.Stat(filepath.Join(dir, "appendonly.aof")); err == nil && reported != fmt.Sprint(fi.Size()) && out.VSig == "" {
+			out.VSig = "C09/aof-size-vs-file:" + p.Name
+			out.VDetail = fmt.Sprintf("SERVER reported aof_size %s, appendonly.aof holds %d bytes after the rewrite and the concurrent writes (commands written twice?)", reported, fi.Size())
+		}
 		in2, serr := x.TryStart("L2", dir, 9002, nil)
 		if serr != nil {
 			out.Obs = "RESTART-FAILS"
@@ -420,6 +429,7 @@ func c09SchedScenarios(tier string) []c09Params {
 		S("rename-to-scanned-side", one("RENAME kc k0")),
 		S("rename-to-unscanned-side", one("RENAME ka kz")),
 		S("rename-over-existing", one("RENAME kc ka")),
+		{Name: "rename-over-existing-with-more-ids", Pre: append(append([][]string{}, pre...), w("SET ka x POINT 1 9"), w("SET ka y POINT 1 8")), Writers: [][][]string{one("RENAME kc ka")}},
 		S("renamenx", one("RENAMENX kb k0")),
 		S("jset-expire", append(one("EXPIRE kb a 100"), []string{"JSET", "kb", "j", "x", "1"})),
 		S("flushdb", one("FLUSHDB", "SET kb z POINT 1 1")),
